@@ -175,6 +175,9 @@ func (s *Storage) getGateway(rows *sql.Rows, err error) (model.Gateway, error) {
 
 // GetGateway returns a gateway from the store
 func (s *Storage) GetGateway(eui protocol.EUI) (model.Gateway, error) {
+	if err := gate("GetGateway", eui.String()); err != nil {
+		return model.Gateway{}, err
+	}
 	s.mutex.Lock()
 	defer s.mutex.Unlock()
 
